@@ -61,11 +61,12 @@ type fnInfo struct {
 }
 
 type analyzer struct {
-	fset *token.FileSet
-	info *types.Info
-	pkg  *types.Package
-	out  *strings.Builder
-	fns  []*fnInfo
+	fset  *token.FileSet
+	info  *types.Info
+	pkg   *types.Package
+	out   *strings.Builder
+	fns   []*fnInfo
+	files []*ast.File
 }
 
 func isPointerish(t types.Type) bool {
@@ -198,6 +199,121 @@ func (s *fnState) rootsOf(e ast.Expr) []root {
 	return []root{{kind: rUnknown}}
 }
 
+// fieldTaint: struct fields of reference type (map, slice, pointer) into which some composite literal or assignment of the
+// analysed packages stores a package-level variable: the value of such a field may BE that package-level object
+// (e.g. parserOptions.specialSchemes <- defaultSpecialSchemes in defaultParserOptions()). Key: the field's *types.Var.
+var fieldTaint = map[*types.Var][]root{}
+
+func addTaint(f *types.Var, rs []root) {
+	for _, r := range rs {
+		if r.kind != rGlobal {
+			continue
+		}
+		dup := false
+		for _, o := range fieldTaint[f] {
+			if o == r {
+				dup = true
+			}
+		}
+		if !dup {
+			fieldTaint[f] = append(fieldTaint[f], r)
+		}
+	}
+}
+
+// collectTaint walks one package once, before the function summaries are computed
+func collectTaint(a *analyzer, files []*ast.File) {
+	s := &fnState{a: a, fn: &fnInfo{}, alias: map[*types.Var][]root{}}
+	for _, f := range files {
+		ast.Inspect(f, func(n ast.Node) bool {
+			switch x := n.(type) {
+			case *ast.CompositeLit:
+				for _, el := range x.Elts {
+					kv, ok := el.(*ast.KeyValueExpr)
+					if !ok {
+						continue
+					}
+					id, ok := kv.Key.(*ast.Ident)
+					if !ok {
+						continue
+					}
+					fv, ok := a.info.Uses[id].(*types.Var)
+					if !ok || !fv.IsField() || !isPointerish(fv.Type()) {
+						continue
+					}
+					addTaint(fv, s.rootsOf(kv.Value))
+				}
+			case *ast.AssignStmt:
+				if len(x.Lhs) != len(x.Rhs) {
+					return true
+				}
+				for i, l := range x.Lhs {
+					sel, ok := l.(*ast.SelectorExpr)
+					if !ok {
+						continue
+					}
+					fv, ok := a.info.Uses[sel.Sel].(*types.Var)
+					if !ok || !fv.IsField() || !isPointerish(fv.Type()) {
+						continue
+					}
+					addTaint(fv, s.rootsOf(x.Rhs[i]))
+				}
+			}
+			return true
+		})
+	}
+}
+
+// valueRoots: the roots the VALUE of a pointer-ish expression may point into: what rootsOf gives (ownership: a field's value
+// belongs to the object holding the field) plus, for a tainted field, the package-level objects that may have been stored in it
+func (s *fnState) valueRoots(e ast.Expr) []root {
+	rs := append([]root(nil), s.rootsOf(e)...)
+	var x ast.Expr = e
+	for {
+		if p, ok := x.(*ast.ParenExpr); ok {
+			x = p.X
+			continue
+		}
+		break
+	}
+	if sel, ok := x.(*ast.SelectorExpr); ok {
+		if fv, ok := s.a.info.Uses[sel.Sel].(*types.Var); ok && fv.IsField() {
+			for _, r := range fieldTaint[fv] {
+				dup := false
+				for _, o := range rs {
+					if o == r {
+						dup = true
+					}
+				}
+				if !dup {
+					rs = append(rs, r)
+				}
+			}
+		}
+	}
+	return rs
+}
+
+// writtenRoots: the objects a store to the lvalue e may modify: for X.f, X[i] and *X that is what the value of X denotes
+func (s *fnState) writtenRoots(e ast.Expr) []root {
+	switch x := e.(type) {
+	case *ast.ParenExpr:
+		return s.writtenRoots(x.X)
+	case *ast.SelectorExpr:
+		if id, ok := x.X.(*ast.Ident); ok {
+			if _, isPkg := s.a.info.Uses[id].(*types.PkgName); isPkg {
+				return s.rootsOf(e)
+			}
+		}
+		return s.valueRoots(x.X)
+	case *ast.IndexExpr:
+		return s.valueRoots(x.X)
+	case *ast.StarExpr:
+		return s.valueRoots(x.X)
+	}
+	return s.rootsOf(e)
+}
+
 // methods that hand out a pointer into their receiver (so that writes through the result are writes to the receiver)
 var returnsReceiverPart = map[string]bool{
 	"url.(*Url).SearchParams": true,
@@ -247,7 +363,17 @@ func pathOf(e ast.Expr) string {
 }
 
 func (s *fnState) addWrite(e ast.Expr, how string) {
-	for _, r := range s.rootsOf(e) {
+	for _, r := range s.writtenRoots(e) {
+		if r.kind == rFresh {
+			continue
+		}
+		s.writes = append(s.writes, fmt.Sprintf("mkW @%s@ %s %q (* %s %s *)", s.fn.name, r.coq(), pathOf(e), strings.ReplaceAll(how, "(*", "(ptr "), s.a.fset.Position(e.Pos())))
+	}
+}
+
+// addWriteValue: a write into the object that the VALUE of e denotes (receiver or argument of a mutating library call)
+func (s *fnState) addWriteValue(e ast.Expr, how string) {
+	for _, r := range s.valueRoots(e) {
 		if r.kind == rFresh {
 			continue
 		}
@@ -281,7 +407,7 @@ func (s *fnState) bindLocal(lhs ast.Expr, rhs ast.Expr) {
 			return
 		}
 	}
-	for _, r := range s.rootsOf(rhs) {
+	for _, r := range s.valueRoots(rhs) {
 		dup := false
 		for _, o := range s.alias[v] {
 			if o == r {
@@ -381,9 +507,9 @@ func (s *fnState) call(x *ast.CallExpr) {
 	name := funcName(callee)
 	if libMutators[name] {
 		if recvExpr != nil {
-			s.addWrite(recvExpr, "library mutator "+name)
+			s.addWriteValue(recvExpr, "library mutator "+name)
 		} else if len(x.Args) > 0 {
-			s.addWrite(x.Args[0], "library mutator "+name)
+			s.addWriteValue(x.Args[0], "library mutator "+name)
 		}
 		return
 	}
@@ -392,7 +518,7 @@ func (s *fnState) call(x *ast.CallExpr) {
 	}
 	recv := "None"
 	if recvExpr != nil {
-		rs := s.rootsOf(recvExpr)
+		rs := s.valueRoots(recvExpr)
 		var parts []string
 		for _, r := range rs {
 			parts = append(parts, r.coq())
@@ -404,7 +530,7 @@ func (s *fnState) call(x *ast.CallExpr) {
 		tv, ok := s.a.info.Types[a]
 		if ok && isPointerish(tv.Type) {
 			var parts []string
-			for _, r := range s.rootsOf(a) {
+			for _, r := range s.valueRoots(a) {
 				parts = append(parts, r.coq())
 			}
 			args = append(args, "["+strings.Join(parts, "; ")+"]")
@@ -451,7 +577,7 @@ func analyzePackage(fset *token.FileSet, imp types.Importer, dir, path string) (
 	if err != nil {
 		return nil, err
 	}
-	a := &analyzer{fset: fset, info: info, pkg: pkg}
+	a := &analyzer{fset: fset, info: info, pkg: pkg, files: files}
 	for _, f := range files {
 		for _, d := range f.Decls {
 			fd, ok := d.(*ast.FuncDecl)
@@ -490,6 +616,9 @@ func main() {
 				allMethodNames[short] = append(allMethodNames[short], fn.name)
 			}
 		}
+	}
+	for _, a := range as {
+		collectTaint(a, a.files)
 	}
 	for _, a := range as {
 		for _, fn := range a.fns {
